@@ -90,7 +90,8 @@ Section Generic.
   Definition values_resp (n : nat) : Prop :=
     (forall v, rsp (index_value n v)) /\ (forall x, rsp (index_inner n x)) /\
     (forall sv, rsp (index_simple n sv)) /\ (forall a, rsp (index_arg n a)) /\
-    (forall op an vs r, rsp (index_bang n op an vs r)).
+    (forall op an vs r, rsp (index_bang n op an vs r)) /\
+    (forall op a vs r, rsp (index_bang_ops n op a vs r)).
 
   Lemma r_sufs_loop : forall (l : list suffix) t,
       rsp ((fix sufs_loop (t : mty) (l : list suffix) : M mty :=
@@ -111,9 +112,15 @@ Section Generic.
            end) t l).
   Proof. induction l as [|sf r IH]; intros t; rs; apply IH. Qed.
 
+  Lemma r_index_annot : forall op an r, rsp (index_annot op an r).
+  Proof. intros. unfold index_annot. rs. Qed.
+  Lemma r_check_arity : forall op vs r, rsp (check_arity op vs r).
+  Proof. intros. unfold check_arity. rs. Qed.
+  Hint Resolve r_index_annot r_check_arity : rsp.
+
   Lemma values_resp_all : forall n, values_resp n.
   Proof.
-    induction n as [|n [IHv [IHi [IHs [IHa IHb]]]]].
+    induction n as [|n [IHv [IHi [IHs [IHa [IHb IHo]]]]]].
     - repeat split; intros; simpl; auto with rsp.
     - repeat split.
       + intros [r [|first rest]]; simpl; rs; try (apply r_iterM; intros; apply IHi).
@@ -121,8 +128,8 @@ Section Generic.
       + intros sv; destruct sv; simpl; rs;
           try (apply r_iterM; intros; apply IHv); try (apply r_mapM_opt; intros; first [apply IHv|apply IHa]).
       + intros a; destruct a; simpl; rs; apply IHv.
-      + intros op an vs r; simpl.
-        apply r_bind; [rs|]. intros a. apply r_seq; [rs|].
+      + intros op an vs r; simpl. rs.
+      + intros op a vs r; simpl.
         destruct op; simpl;
           rs; try (apply r_iterM; intros; rs; apply IHv); try (apply r_mapM_opt; intros; apply IHv).
   Qed.
@@ -134,6 +141,8 @@ Section Generic.
   Lemma r_index_simple : forall n a, rsp (index_simple n a).
   Proof. intros n; apply (values_resp_all n). Qed.
   Lemma r_index_bang : forall n op an vs r, rsp (index_bang n op an vs r).
+  Proof. intros n; apply (values_resp_all n). Qed.
+  Lemma r_index_bang_ops : forall n op a vs r, rsp (index_bang_ops n op a vs r).
   Proof. intros n; apply (values_resp_all n). Qed.
   Hint Resolve r_index_value r_index_arg : rsp.
   Lemma r_index_args : forall n l, rsp (index_args n l).
